@@ -17,6 +17,11 @@
 //	same list twice, the answer converted back, writes of the caller in between), one
 //	NodeVisitor object for several Runs on other trees / other AddOffset, one data source
 //	object for several images.
+//
+// Delivered bytes (delivered.go): what Data.RawBytes() of a data-source result hands to the
+//
+//	hash, byte by byte against the image, for range lists of every relation (overlapping,
+//	nested, repeated, unsorted ...).
 package main
 
 import (
@@ -86,6 +91,7 @@ func main() {
 	galago := loadXZ(repo + "/testdata/firmware/GALAGOPRO3.fd.xz")
 	calcOffsets(ctx, fake, galago)
 	mapperSessions(ctx, fake)
+	deliveredSmall(ctx)
 	imagesPart(ctx, fake, galago)
 	ctx.Finish("A: sizes {1, 64K, 8M, 16M, 32M, 0x5e0000, 2^32-1, 2^32, 0, >2^32, random} x offsets {0, 1, size-1, size, size+1, random<size, random u64}: " +
 		"PhysMemMapper (all six entry points, range lists), UEFI.PhysAddrToOffset/OffsetToPhysAddr, consts.Calculate*, both isPhysAddr copies; " +
@@ -94,7 +100,8 @@ func main() {
 		"C: NodeVisitor (fallback on/off, AddOffset, random stop answers; ONE visitor object for 3-5 Runs over image families with the same volumes at other offsets, other AddOffset, flipped fallback, sub-trees, pruned and aborted Runs, each Run judged against its image's ground truth and a fresh visitor), one data source object for several images, VolumeOf(MemRanges(multi-range list with spare capacity)) repeated, GetByGUID/Range/RegionType, UEFIGUIDFirst, UEFIFilesByType/ByName, VolumeOf, MemRanges, FITFirst/FITAll, ACMDate, IBB, PCR0_DATA on " +
 		"GALAGOPRO3, the synthetic Intel image, both behind a flash descriptor, tail truncations and parse-preserving byte mutations; " +
 		"synthetic BIOS regions built from the PI layouts (few GUIDs used many times as file and volume names: inside zlib/LZMA-compressed sections, nested compressed sections, after them, in sibling and nested volumes; named/unnamed volumes, pad and raw files, non-processed sections); " +
-		"the synthetic Intel image with re-shaped Boot Policy / Key Manifests (IBB digest list in every order and composition: SHA1 first/last/absent/twice, other algorithms and odd buffer lengths in between; PostIBB/OBB hashes, extra segments, TXT/PM elements present or not, more KM hashes, manifests moved) for PCR0_DATA, incl. the digest-reference search as correspondence cases")
+		"the synthetic Intel image with re-shaped Boot Policy / Key Manifests (IBB digest list in every order and composition: SHA1 first/last/absent/twice, other algorithms and odd buffer lengths in between; PostIBB/OBB hashes, extra segments incl. hashed segments that overlap / lie inside / repeat another one in front of or behind it, TXT/PM elements present or not, more KM hashes, manifests moved) for PCR0_DATA, incl. the digest-reference search as correspondence cases; " +
+		"D: the BYTES delivered (Data.RawBytes()) judged byte-wise against the image for every data-source result above and for MemRanges lists of every relation (single, disjoint, touching, overlapping, nested, repeated, overlap chains, unsorted, zero-length in between, first/last byte, whole+part, same start/end, random; leaving the image: corresponded, not judged) on small BIOSImages of 1..256 random non-zero bytes and inside windows of the parsed images (start, end = just below 4 GiB, around located objects), lists built from objects of the tree (object + object inside it, the same object twice, later object first, a range across an object's end) through MemRanges and VolumeOf(MemRanges); UEFIGUIDFirst / UEFIFiles results spanning <= 3000 bytes as correspondence cases from the ranges the walker reported")
 }
 
 // ------------------------------------------------------------------ Part A
@@ -595,6 +602,7 @@ func imagesPart(ctx *gal.Ctx, fake, galago []byte) {
 	// the same objects used again: one visitor for several Runs, one data source for several images
 	walkerSessions(ctx, pool, families, heavyRun)
 	dataSourceSessions(ctx, pool, families)
+	deliveredOnImages(ctx, pool, heavyRun)
 	ctx.Rep.Extra["images_tried"] = len(ims)
 	ctx.Rep.Extra["images_parsed"] = parsed
 	ctx.Rep.Extra["d23_examples"] = head(d23all, 8)
